@@ -35,8 +35,8 @@ type Lab struct {
 	Added   []net.Addr
 	Handled []Handled
 	Events  map[string][]event.Event // capture channel name -> events in arrival order
-	Bus     pushers.Channel           // what the listener was given (the event bus)
-	SvcBus  pushers.Channel           // what services were given
+	Bus     pushers.Channel          // what the listener was given (the event bus)
+	SvcBus  pushers.Channel          // what services were given
 	accept  chan net.Conn
 	started chan struct{}
 	done    chan struct{}
@@ -79,16 +79,24 @@ type stub struct {
 	ReadSize int    `toml:"readsize"`
 	Delay    int    `toml:"delay"` // ms to wait before the first read
 	ch       pushers.Channel
+	lab      *Lab // the instance this service was built for (several may be alive at a time)
+}
+
+func (s *stub) owner() *Lab {
+	if s.lab != nil {
+		return s.lab
+	}
+	return current()
 }
 
 func (s *stub) SetChannel(c pushers.Channel) {
 	s.ch = c
-	if l := current(); l != nil {
+	if l := s.owner(); l != nil {
 		l.SvcBus = c
 	}
 }
 func (s *stub) Handle(ctx context.Context, conn net.Conn) error {
-	lab := current()
+	lab := s.owner()
 	rs := s.ReadSize
 	if rs <= 0 {
 		rs = 4096
@@ -129,10 +137,15 @@ func (s *stubDet) CanHandle(b []byte) bool {
 // ---- capture channel ----
 type capChannel struct {
 	Name string `toml:"name"`
+	lab  *Lab
 }
 
 func (c *capChannel) Send(e event.Event) {
-	if l := current(); l != nil {
+	l := c.lab
+	if l == nil {
+		l = current()
+	}
+	if l != nil {
 		l.mu.Lock()
 		l.Events[c.Name] = append(l.Events[c.Name], e)
 		l.mu.Unlock()
@@ -148,21 +161,21 @@ func init() {
 		return l, nil
 	})
 	services.Register("verif-stub", func(opts ...services.ServicerFunc) services.Servicer {
-		s := &stub{}
+		s := &stub{lab: current()}
 		for _, o := range opts {
 			o(s)
 		}
 		return s
 	})
 	services.Register("verif-stub-det", func(opts ...services.ServicerFunc) services.Servicer {
-		s := &stubDet{}
+		s := &stubDet{stub{lab: current()}}
 		for _, o := range opts {
 			o(s)
 		}
 		return s
 	})
 	pushers.Register("verif-cap", func(opts ...func(pushers.Channel) error) (pushers.Channel, error) {
-		c := &capChannel{}
+		c := &capChannel{lab: current()}
 		for _, o := range opts {
 			o(c)
 		}
@@ -350,14 +363,28 @@ func Pipe(local, remote net.Addr) (*AConn, net.Conn) {
 // Probe injects a TCP-like connection, writes the segments (one Write each), closes the
 // client side and waits until the server has closed its side.
 func (l *Lab) Probe(local, remote net.Addr, segments [][]byte) error {
+	return l.ProbePaced(local, remote, segments, nil)
+}
+
+// ProbePaced is Probe with a client that pauses gaps[i] before writing segment i (a missing
+// or zero entry = no pause).  The waits are bounds for "the server hangs", generous enough
+// for a loaded machine; they only cost time when something is wrong.
+func (l *Lab) ProbePaced(local, remote net.Addr, segments [][]byte, gaps []time.Duration) error {
 	sc, cc := Pipe(local, remote)
 	select {
 	case l.accept <- sc:
-	case <-time.After(5 * time.Second):
+	case <-time.After(30 * time.Second):
 		return fmt.Errorf("server does not accept")
 	}
+	total := 60 * time.Second
+	for _, g := range gaps {
+		total += g
+	}
 	go func() {
-		for _, s := range segments {
+		for i, s := range segments {
+			if i < len(gaps) && gaps[i] > 0 {
+				time.Sleep(gaps[i])
+			}
 			if _, err := cc.Write(s); err != nil {
 				break
 			}
@@ -366,7 +393,7 @@ func (l *Lab) Probe(local, remote net.Addr, segments [][]byte) error {
 	}()
 	select {
 	case <-sc.Closed():
-	case <-time.After(10 * time.Second):
+	case <-time.After(total):
 		return fmt.Errorf("server did not close the connection")
 	}
 	io.Copy(io.Discard, cc)
@@ -392,12 +419,12 @@ func (l *Lab) ProbeUDP(local net.Addr, remote *net.UDPAddr, datagram []byte, rep
 		}}, closed: make(chan struct{})}
 	select {
 	case l.accept <- u:
-	case <-time.After(5 * time.Second):
+	case <-time.After(30 * time.Second):
 		return fmt.Errorf("server does not accept")
 	}
 	select {
 	case <-u.closed:
-	case <-time.After(10 * time.Second):
+	case <-time.After(60 * time.Second):
 		return fmt.Errorf("server did not close the datagram connection")
 	}
 	return nil
